@@ -7,6 +7,8 @@ writes the whole buffer to the OUT endpoint and returns libusb's count (C15); bo
 int(default*1000) when t is None; usb1.USBError -> UsbReadFailedError / UsbWriteFailedError; use after close hits
 the `is None` guard and raises those errors; close() resets the handle in `finally` (C12); AdbDeviceUsb forwards
 serial, port_path and the default timeout.  Not decided: behaviour of libusb, whole sessions over it.
+HANDLE (typestate): after `<handle>.close()` every path out of the method, exceptional ones included, resets `self._transport` to None;
+a failed claimInterface is not swallowed.
 """
 import ast
 from ..terms import crepr
